@@ -123,6 +123,11 @@ TRUSTED["C15"] = [
     "callees receive the data by reference and are assumed not to modify it (A4; the kernels' contracts are C01/C05/C12/C13)",
 ]
 
+TRUSTED["C19"] = [
+    "list lemma A7 (cnt/req enumeration of the kept positions) as the closed form of the filtered appends in flatten_sns_names",
+    "f-strings as injective builders of (template, values); strings as an uninterpreted sort with distinct literals",
+]
+
 ASSUMPTIONS = {
     "C09": [
         "a mode-shape vector in a pole table is either entirely non-finite or entirely finite",
@@ -163,7 +168,14 @@ ASSUMPTIONS["C15"] = ["setups per PoSER constructor enumerated 0..3 exhaustively
                       "states and the number of names symbolic", "algorithms per setup enumerated (2 for run_by_name, 3 for run_all); which of data / fs / run parameters "
                       "are missing is symbolic", "the history clause (any sequence of add / run / mpe) follows by induction from the per-operation contracts, each proved from an arbitrary state"]
 
+ASSUMPTIONS["C19"] = ["flatten_sns_names: number of setups enumerated (2); names per setup, number and positions of references symbolic",
+                      "everything that goes through pandas (check_on_geo1/2, dfphi_map_func, def_geo1/2) is NOT proved: bounded stand-in on crafted table sets, labelled bounded"]
+
 NOT_DECIDED = {
+    "C19": ["validation completeness, re-ordering to the sensor order, zero-based indices, None for omitted sheets and the mapping of a shape to points for ALL tables: "
+            "only the bounded stand-in speaks about them (pandas has no model here)",
+            "the displayed displacement (value x sign, plot_mode) and what matplotlib draws",
+            "flatten_sns_names on table inputs (one-row / multi-row DataFrame): bounded stand-in only"],
     "C15": ["save/load round trip and bit-identical reruns on real data: bounded stand-in only (pickle and floating point are outside the contracts)",
             "that the numerical kernels called by run() are deterministic and leave their inputs unchanged (assumption A4)"],
     "C11": ["automatic order selection ('find_min') for all inputs: only the bounded stand-in speaks about it",
